@@ -96,6 +96,10 @@ class Raised(Exception):
         self.cls = cls
 
 
+_SENTINELS: Dict[Tuple[str, str], Tuple[str, str, str]] = {}
+_DUNDER = {ast.BitOr: "__or__", ast.BitAnd: "__and__", ast.Sub: "__sub__", ast.Mult: "__mul__"}
+
+
 class _Ret(Exception):
     def __init__(self, v):
         self.v = v
@@ -123,7 +127,15 @@ class TermAlg:
     def call(self, fi: FuncInfo, pos: List[Any], kw: Optional[Dict[str, Any]] = None, self_val: Any = None) -> Any:
         kw = kw or {}
         if fi.key in self.stubs:
-            return self.stubs[fi.key](self, ([self_val] + list(pos)) if (self_val is not None and fi.kind in ("method", "property")) else pos, kw)
+            full = ([self_val] + list(pos)) if (self_val is not None and fi.kind in ("method", "property")) else list(pos)
+            # arguments given by keyword are handed to the stub in the callee's parameter order as well
+            rest = dict(kw)
+            for p in fi.params[len(full):]:
+                if p in rest:
+                    full.append(rest.pop(p))
+                else:
+                    break
+            return self.stubs[fi.key](self, full, rest)
         if self.depth > 12:
             raise AnalysisError("kernel inlining too deep at %s" % fi.key)
         env: Dict[str, Any] = {}
@@ -292,6 +304,31 @@ class TermAlg:
                 else:
                     raise
             return
+        if isinstance(s, ast.Delete):
+            for t in s.targets:
+                if isinstance(t, ast.Subscript):
+                    b = self.eval(t.value, env)
+                    k = self.eval(t.slice, env)
+                    if isinstance(b, DictV):
+                        if k not in b.d:
+                            raise Raised("KeyError")
+                        del b.d[k]
+                        continue
+                    if isinstance(b, ListV) and isinstance(k, Rat) and k.as_const() is not None:
+                        i_ = int(k.as_const())
+                        if not -len(b.items) <= i_ < len(b.items):
+                            raise Raised("IndexError")
+                        del b.items[i_]
+                        continue
+                elif isinstance(t, ast.Name) and t.id in env:
+                    del env[t.id]
+                    continue
+                raise AnalysisError("del %s outside the kernel fragment in %s" % (norm(t), self.fstack[-1].key))
+            return
+        if isinstance(s, ast.FunctionDef):
+            # a local function: a value that remembers where it was defined
+            env[s.name] = ("closure", s, env, self.fstack[-1] if self.fstack else None)
+            return
         if isinstance(s, ast.With):
             # context managers are not modelled: the resource is whatever the (stubbed) call gives, the body runs once
             for item in s.items:
@@ -366,6 +403,9 @@ class TermAlg:
             r = self.prog.resolve_name(fi.module, e.id)
             if r is not None:
                 return r
+        if fi is not None and e.id in fi.module.assigns and isinstance(fi.module.assigns[e.id], ast.Call) and norm(fi.module.assigns[e.id].func) == "object" and not fi.module.assigns[e.id].args:
+            # a module-level sentinel `_MISSING = object()`: one value, equal only to itself
+            return _SENTINELS.setdefault((fi.module.name, e.id), ("sentinel", fi.module.name, e.id))
         if fi is not None and e.id in fi.module.assigns and isinstance(fi.module.assigns[e.id], (ast.Tuple, ast.List, ast.Constant, ast.Dict)):
             # a constant table / literal of the module
             return self.eval(fi.module.assigns[e.id], {})
@@ -373,7 +413,7 @@ class TermAlg:
             return ("extmod", "builtins.open")
         if e.id == "print":
             return ("ignore",)  # writes to the terminal: no value, no effect on the records
-        if e.id in ("float", "int", "str", "list", "len", "isinstance", "abs", "enumerate", "sorted", "dict", "type", "all", "any", "zip", "range", "bool"):
+        if e.id in ("float", "int", "str", "list", "len", "isinstance", "abs", "enumerate", "sorted", "dict", "type", "all", "any", "zip", "range", "bool", "tuple", "set"):
             return ("builtin", e.id)
         if e.id in ("product", "reduce", "map"):
             return ("builtin", e.id)
@@ -414,6 +454,8 @@ class TermAlg:
             return ("str", b.name)
         if isinstance(b, tuple) and b and b[0] == "str" and e.attr == "join":
             return ("strjoin", b[1])
+        if isinstance(b, tuple) and b and b[0] == "str" and e.attr in ("format", "strip", "lower", "upper", "rstrip", "lstrip", "replace"):
+            return ("strmeth", b[1], e.attr)
         if isinstance(b, tuple) and b and b[0] == "enumv":
             return ("enumv", e.attr)
         if b.__class__.__name__ == "ClassInfo" and b.name == "PolyhedralSyntaxOperator":
@@ -449,6 +491,10 @@ class TermAlg:
         return TupV([self.eval(x, env) for x in e.elts])
 
     def x_List(self, e, env):
+        return ListV([self.eval(x, env) for x in e.elts])
+
+    def x_Set(self, e, env):
+        # a set display is only ever asked `x in {...}` / iterated here: a list of its elements does
         return ListV([self.eval(x, env) for x in e.elts])
 
     def x_Dict(self, e, env):
@@ -528,6 +574,29 @@ class TermAlg:
                 finally:
                     if frame is not None:
                         self.fstack.pop()
+            if fn[0] == "partialv":
+                return self.apply(fn[1], list(fn[2]) + list(pos), dict(fn[3], **kw), node)
+            if fn[0] == "closure":
+                node_, env0, frame = fn[1], dict(fn[2]), fn[3]
+                a_ = node_.args
+                names = [x.arg for x in a_.args]
+                if len(pos) > len(names) or a_.vararg or a_.kwarg:
+                    raise AnalysisError("local function %s called with %d arguments" % (node_.name, len(pos)))
+                for n_, d_ in zip(reversed(names), reversed(a_.defaults)):
+                    env0[n_] = self.eval(d_, dict(fn[2]))
+                for n_, v_ in zip(names, pos):
+                    env0[n_] = v_
+                env0.update(kw)
+                if frame is not None:
+                    self.fstack.append(frame)
+                try:
+                    self.block(node_.body, env0)
+                    return NONE
+                except _Ret as r_:
+                    return r_.v
+                finally:
+                    if frame is not None:
+                        self.fstack.pop()
             if fn[0] == "extmod" and fn[1].startswith("operator.") and fn[1].split(".")[1] in self._OPERATOR:
                 ar, op = self._OPERATOR[fn[1].split(".")[1]]
                 if len(pos) == ar and not kw:
@@ -570,6 +639,12 @@ class TermAlg:
     def arith(self, op, l, r, node):
         if isinstance(l, NoneT) or isinstance(r, NoneT):
             raise Raised("TypeError")  # arithmetic on None
+        if isinstance(op, ast.Add) and isinstance(l, ListV) and isinstance(r, ListV):
+            return ListV(list(l.items) + list(r.items))
+        if isinstance(op, ast.Add) and isinstance(l, TupV) and isinstance(r, TupV):
+            return TupV(list(l.items) + list(r.items))
+        if isinstance(op, ast.Add) and isinstance(l, (ListV, TupV)) and isinstance(r, (ListV, TupV)):
+            raise Raised("TypeError")  # list + tuple
         if isinstance(l, Rat) and isinstance(r, Rat):
             if isinstance(op, ast.Add):
                 return l + r
@@ -600,6 +675,8 @@ class TermAlg:
             return ListV([self.arith(op, l, x, node) for x in r.items])
         if isinstance(l, Rec) and isinstance(r, Rec) and isinstance(op, ast.Add):
             return self.method(l, "__add__", [r])
+        if isinstance(l, Rec) and type(op) in _DUNDER and self.prog.resolve_method(l.cls, _DUNDER[type(op)]) is not None:
+            return self.method(l, _DUNDER[type(op)], [r])
         if isinstance(l, tuple) and l and l[0] == "str" and isinstance(r, tuple) and r and r[0] == "str" and isinstance(op, ast.Add):
             return ("str", l[1] + r[1])
         if isinstance(l, tuple) and l and l[0] == "str":
@@ -641,7 +718,7 @@ class TermAlg:
             res = self.same(l, r)
             return res if isinstance(op, ast.Eq) else not res
         if isinstance(op, (ast.Is, ast.IsNot)):
-            res = (l is r) or (isinstance(l, NoneT) and isinstance(r, NoneT))
+            res = (l is r) or (isinstance(l, NoneT) and isinstance(r, NoneT)) or (isinstance(l, tuple) and isinstance(r, tuple) and l[:1] in (("builtin",), ("sentinel",)) and l == r)
             return res if isinstance(op, ast.Is) else not res
         if isinstance(l, ListV) and isinstance(r, Rat) and isinstance(op, (ast.Lt, ast.LtE, ast.Gt, ast.GtE)):
             out = []
@@ -771,7 +848,9 @@ class TermAlg:
                 return "float" in tname or "int" in tname
             if isinstance(v0, tuple) and v0 and v0[0] == "str":
                 return "str" in tname
-            return False
+            if not isinstance(v0, (ListV, TupV, DictV, bool)):
+                return False
+            # containers: decided by the general test below
         if isinstance(f, tuple) and f == ("builtin", "isinstance") and len(e.args) == 2:
             root = e.args[1]
             while isinstance(root, ast.Attribute):
@@ -794,6 +873,8 @@ class TermAlg:
             t = f[0]
             if t == "typeof" and isinstance(f[1], Rec):
                 return self.construct(f[1].cls, pos, kw)
+            if t == "strmeth":
+                return ("str", "?")  # some text: only its being text matters to the rules
             if t == "strjoin" and len(pos) == 1:
                 parts = self.iterate(pos[0], e)
                 if all(isinstance(x, tuple) and x and x[0] == "str" for x in parts):
@@ -809,8 +890,10 @@ class TermAlg:
                 if fi.kind == "static":
                     return self.call(fi, pos, kw)
                 return self.call(fi, pos[1:], kw, self_val=pos[0])
-            if t == "lambda" or (t == "extmod" and f[1].startswith("operator.")):
+            if t in ("lambda", "closure", "partialv") or (t == "extmod" and f[1].startswith("operator.")):
                 return self.apply(f, pos, kw, e)
+            if t == "extmod" and f[1] in ("functools.partial", "partial") and pos:
+                return ("partialv", pos[0], list(pos[1:]), dict(kw))
             if t == "extmod":
                 if f[1] in self.ext_stubs:
                     return self.ext_stubs[f[1]](self, pos, kw)
@@ -818,6 +901,14 @@ class TermAlg:
                     return ListV([ListV(list(x.items)) if isinstance(x, (ListV, TupV)) else x for x in pos[0].items])
                 if f[1] in ("numpy.any", "numpy.all") and pos and isinstance(pos[0], ListV) and all(isinstance(x, bool) for x in pos[0].items):
                     return any(pos[0].items) if f[1].endswith("any") else all(pos[0].items)
+                if f[1] in ("numpy.isclose", "math.isclose") and len(pos) >= 2 and isinstance(pos[0], Rat) and isinstance(pos[1], Rat):
+                    d = pos[0] - pos[1]
+                    if d.is_zero():
+                        return True
+                    cd, cb = d.as_const(), pos[1].as_const()
+                    if cd is not None and cb is not None:
+                        return abs(cd) <= Fraction(1, 10**8) + Fraction(1, 10**5) * abs(cb)
+                    return False  # generic symbols: not within a tolerance of each other
                 if f[1] == "numpy.linalg.solve" and len(pos) == 2:
                     return self.linsolve(pos[0], pos[1])
                 if f[1].endswith("sympy.symbols") and pos and isinstance(pos[0], tuple) and pos[0][0] == "str":
@@ -932,16 +1023,19 @@ class TermAlg:
                     if isinstance(pos[1], tuple) and pos[1] and pos[1][0] == "typeof":
                         o = pos[1][1]
                         return isinstance(v, Rec) and isinstance(o, Rec) and self.prog.is_subclass(v.cls, o.cls)
-                    if tname == "str":
-                        return isinstance(v, tuple) and bool(v) and v[0] == "str"
-                    if tname in ("dict", "Dict", "typing.Dict"):
-                        return isinstance(v, DictV)
-                    if tname in ("list", "List", "typing.List"):
-                        return isinstance(v, ListV)
-                    if tname in ("tuple", "Tuple"):
-                        return isinstance(v, TupV)
-                    if tname in ("int", "float", "(int, float)", "(float, int)"):
-                        return isinstance(v, Rat)
+                    # the kinds given as values (a name bound to `dict`, a module-level tuple `(int, float)`)
+                    kinds_v = pos[1].items if isinstance(pos[1], TupV) else [pos[1]]
+                    if all(isinstance(k_, tuple) and len(k_) == 2 and k_[0] == "builtin" for k_ in kinds_v) and not all(isinstance(t_, ast.Name) and t_.id in ("int", "float", "str", "list", "dict", "tuple", "bool") for t_ in (e.args[1].elts if isinstance(e.args[1], ast.Tuple) else [e.args[1]])):
+                        simple_v = {"str": lambda x: isinstance(x, tuple) and bool(x) and x[0] == "str", "dict": lambda x: isinstance(x, DictV), "list": lambda x: isinstance(x, ListV), "tuple": lambda x: isinstance(x, TupV), "int": lambda x: isinstance(x, Rat), "float": lambda x: isinstance(x, Rat), "bool": lambda x: isinstance(x, bool)}
+                        if all(k_[1] in simple_v for k_ in kinds_v):
+                            return any(simple_v[k_[1]](v) for k_ in kinds_v)
+                    type_nodes = e.args[1].elts if isinstance(e.args[1], ast.Tuple) else [e.args[1]]
+                    simple = {"str": lambda x: isinstance(x, tuple) and bool(x) and x[0] == "str", "dict": lambda x: isinstance(x, DictV), "list": lambda x: isinstance(x, ListV), "tuple": lambda x: isinstance(x, TupV), "int": lambda x: isinstance(x, Rat), "float": lambda x: isinstance(x, Rat), "bool": lambda x: isinstance(x, bool)}
+                    names_ = [norm(t_).split(".")[-1].lower() if norm(t_).split(".")[-1] in ("Dict", "List", "Tuple") else norm(t_).split(".")[-1] for t_ in type_nodes]
+                    if all(n_ in simple for n_ in names_):
+                        return any(simple[n_](v) for n_ in names_)
+                    if any(n_ in simple and simple[n_](v) for n_ in names_):
+                        return True
                     if isinstance(v, Rec):
                         names = [tname] if not isinstance(e.args[1], ast.Tuple) else [norm(x) for x in e.args[1].elts]
                         return any(self.prog.is_subclass(v.cls, t_) for t_ in names if t_ in self.prog.classes)
